@@ -55,11 +55,13 @@ pub struct Frame {
     pub lead: usize,
     /// a small well-formed packet appended after the announced end
     pub trail: bool,
+    /// value of the last announced byte when the padding bit is set
+    pub pad: u8,
 }
 
 impl Frame {
     pub fn describe(&self) -> String {
-        format!("length-sweep b0={:#04x} pt={} len_field={:#06x} delta={} lead={} trail={}", self.b0, self.pt, self.v, self.delta, self.lead, self.trail)
+        format!("length-sweep b0={:#04x} pt={} len_field={:#06x} delta={} lead={} trail={} pad={}", self.b0, self.pt, self.v, self.delta, self.lead, self.trail, self.pad)
     }
 }
 
@@ -96,7 +98,7 @@ pub fn with_frame<R>(fr: &Frame, f: impl FnOnce(&[u8]) -> R) -> Option<R> {
         put(&mut *b, start + 3, fr.v as u8);
         if fr.b0 & 0x20 != 0 && announced >= 8 {
             // a plausible padding count in the last announced byte
-            put(&mut *b, end_announced - 1, 4);
+            put(&mut *b, end_announced - 1, fr.pad);
         }
         if fr.trail {
             put(&mut *b, end_announced, 0x80);
@@ -122,13 +124,15 @@ pub fn packet_frames(v: u32, with_sdes: bool) -> Vec<Frame> {
             // a whole SDES/BYE body walk per delivery is O(size): fewer variants for those
             let deltas: &[i32] = if (pt == 202 || pt == 203) && b0 != 0x80 { &[0] } else { &[-4, -1, 0, 1, 4] };
             for &delta in deltas {
-                out.push(Frame { b0, pt, v: v16, delta, lead: 0, trail: false });
+                out.push(Frame { b0, pt, v: v16, delta, lead: 0, trail: false, pad: 4 });
             }
         }
+        // a set padding bit with a zero count in the last byte, at every size
+        out.push(Frame { b0: 0xa0, pt, v: v16, delta: 0, lead: 0, trail: false, pad: 0 });
         // a surplus of exactly one period of the 16-bit word count: a comparison done in the
         // field's own width cannot see it
         if is_edge_value(v) && matches!(pt, 201 | 204 | 206 | 207) {
-            out.push(Frame { b0: 0x80, pt, v: v16, delta: PERIOD as i32, lead: 0, trail: false });
+            out.push(Frame { b0: 0x80, pt, v: v16, delta: PERIOD as i32, lead: 0, trail: false, pad: 4 });
         }
     }
     out
@@ -141,14 +145,14 @@ pub fn compound_frames(v: u32) -> Vec<Frame> {
     for pt in [207u8, 204, 201] {
         for lead in [0usize, 4] {
             for delta in [-4i32, -1, 0, 1, 3, 4] {
-                out.push(Frame { b0: 0x80, pt, v: v16, delta, lead, trail: false });
+                out.push(Frame { b0: 0x80, pt, v: v16, delta, lead, trail: false, pad: 4 });
             }
-            out.push(Frame { b0: 0x80, pt, v: v16, delta: 0, lead, trail: true });
+            out.push(Frame { b0: 0x80, pt, v: v16, delta: 0, lead, trail: true, pad: 4 });
             // one period of zero bytes behind the tile: 65536 more four-byte tiles (version 0),
             // i.e. a chain longer than any 16-bit counter
             if is_key_value(v) && pt == 207 {
-                out.push(Frame { b0: 0x80, pt, v: v16, delta: PERIOD as i32, lead, trail: false });
-                out.push(Frame { b0: 0x80, pt, v: v16, delta: PERIOD as i32 - 4, lead, trail: false });
+                out.push(Frame { b0: 0x80, pt, v: v16, delta: PERIOD as i32, lead, trail: false, pad: 4 });
+                out.push(Frame { b0: 0x80, pt, v: v16, delta: PERIOD as i32 - 4, lead, trail: false, pad: 4 });
             }
         }
     }
